@@ -738,6 +738,8 @@ def malformed_histories():
     one([dict(ok, shift=0)])                                # never moves: loop at once
     one([dict(ok, shift=0), dict(ok, shift=0, cyc=7300)], maxt=30)     # division by zero in the estimate
     one([ok, dict(ok, cyc=0)])
+    one([ok, dict(ok, shift=None, cyc=12500)])              # the slower one fails at its first cycle, after the other adapted
+    one([dict(ok, cyc=5000), dict(ok, shift=None)], prof=[1, 0, 0, 0])
     one([dict(ok, cyc=-5000)])
     one([dict(ok, shift=-6)])
     one([dict(ok, v=[0.5, 0.5, 0.5, 0.5])], prof=[1, 0, 0, 0])         # sum <= 3: recipient passes zero
